@@ -37,7 +37,10 @@ def gap(run, quick):
                     i1 = wD.Dindex(ell, -ell, -ell)
                     B = D[i1:i1 + (2 * ell + 1) ** 2].reshape(2 * ell + 1, 2 * ell + 1)
                     ref[..., ell * ell:(ell + 1) ** 2] = arr0[..., ell * ell:(ell + 1) ** 2] @ B
-                for cname, w in [("exact", spherical.Wigner(L)), ("larger", spherical.Wigner(L + 2))]:
+                calcs = [("exact", spherical.Wigner(L)), ("larger", spherical.Wigner(L + 2))]
+                if abs(s) >= 1:   # calculators whose own ell_min is above 0 (anything up to |s| must serve these modes)
+                    calcs += [("ell_min=|s|", spherical.Wigner(L + 1, ell_min=abs(s))), ("ell_min=1", spherical.Wigner(L, ell_min=1))]
+                for cname, w in calcs:
                     res = {}
                     for horner in (True, False):
                         inp = {"s": s, "ell_max_modes": L, "lead": list(lead), "kind": kind, "calc": [w.ell_min, w.ell_max, w.mp_max], "horner": horner, "R": list(R)}
